@@ -41,7 +41,7 @@ func (s *scenStats) String() string {
 //	mix        3 clients (own connection + session each) x 3 worker goroutines: Read / Write / Browse of shared
 //	           nodes, one subscription with monitored items per client, server-side value changes, ModifySubscription,
 //	           Unmonitor, concurrent Close at the end
-//	renew      as mix with a secure channel lifetime of 1.2 s, so that both sides renew the token several times
+//	renew      as mix with a secure channel lifetime of 0.4 s, so that both sides renew the token several times
 //	           while requests are in flight
 //	reconnect  as mix through a TCP proxy that cuts all connections twice; the clients reconnect automatically
 func scenario(name string, seed uint64, d time.Duration) (string, error) {
@@ -66,7 +66,7 @@ func scenario(name string, seed uint64, d time.Duration) (string, error) {
 	opts := []opcua.Option{opcua.SecurityMode(ua.MessageSecurityModeNone), opcua.RequestTimeout(3 * time.Second),
 		opcua.AutoReconnect(name == "reconnect"), opcua.ReconnectInterval(50 * time.Millisecond), opcua.DialTimeout(2 * time.Second)}
 	if name == "renew" {
-		opts = append(opts, opcua.Lifetime(1200*time.Millisecond))
+		opts = append(opts, opcua.Lifetime(400*time.Millisecond))
 	}
 	ctx, cancelAll := context.WithCancel(context.Background())
 	defer cancelAll()
